@@ -117,6 +117,65 @@ def D19():
         f'removed node still referenced by attacker: reached={n in a.reached_attack_steps} entry={n in a.entry_points}'
 
 
+def D11():
+    lg, lcf, m, *_ = base()            # ids 0..4 used
+    m2 = Model('m2', lcf)
+    x = lcf.ns.Host(name='x'); m2.add_asset(x, asset_id=5)
+    y = lcf.ns.Host(name='y'); m2.add_asset(y, asset_id=0)
+    return y.id != 0, f'explicit asset id 0 after id 5 -> {y.id}'
+
+
+def D12():
+    g = AttackGraph()
+    a = Attacker(name='a'); g.add_attacker(a, attacker_id=4)
+    b = Attacker(name='b'); g.add_attacker(b, attacker_id=0)
+    return b.id != 0, f'explicit attacker id 0 after id 4 -> {b.id}'
+
+
+def D13():
+    from maltoolbox.attackgraph import AttackGraphNode
+    g = AttackGraph()
+    n1 = AttackGraphNode(type='or', name='s1'); n2 = AttackGraphNode(type='or', name='s2')
+    g.add_node(n1, node_id=7)
+    try:
+        g.add_node(n2, node_id=7)
+    except ValueError:
+        return False, 'duplicate node id rejected'
+    return True, f'node id 7 given twice: {len(g.nodes)} nodes, {len(g._id_to_node)} index entries'
+
+
+def D17():
+    lg, lcf, m, *_ = base()
+    m2 = Model('m2', lcf)
+    a = lcf.ns.Host(name='A'); m2.add_asset(a, asset_id=1)
+    b = lcf.ns.Host(name='A:3'); m2.add_asset(b, asset_id=2)
+    c = lcf.ns.Host(name='A'); m2.add_asset(c, asset_id=3)
+    names = [str(x.name) for x in m2.assets]
+    return len(set(names)) != len(names), f'names after adding A, A:3, A -> {names}'
+
+
+def D16():
+    lg, lcf, m, *_ = base()
+    m2 = Model('m2', lcf)
+    a = lcf.ns.Host(name='A'); m2.add_asset(a, asset_id=1)
+    before = (sorted(m2.asset_ids), m2.next_id)
+    try:
+        m2.add_asset(lcf.ns.Host(name='A'), asset_id=7, allow_duplicate_names=False)
+    except ValueError:
+        pass
+    after = (sorted(m2.asset_ids), m2.next_id)
+    return before != after, f'rejected add_asset changed (asset_ids, next_id) {before} -> {after}'
+
+
+def D8():
+    lg, lcf, m, *_ = base()
+    g = AttackGraph(lg, m)
+    g2 = copy.deepcopy(g)
+    n, n2 = g.get_node_by_full_name('h1:access'), g2.get_node_by_full_name('h1:access')
+    n2.ttc['name'] = 'Changed'
+    return n.ttc['name'] == 'Changed', f'changing the copy ttc changed the original: {n.ttc["name"]}'
+
+
 if __name__ == '__main__':
     ids = sys.argv[1:] or sorted((k for k in globals() if k[0] == 'D' and k[1:].isdigit()),
                                  key=lambda s: int(s[1:]))
